@@ -132,6 +132,11 @@ class BaseDeferred(metaclass=BaseDeferredMetaclass):
             raise TypeError(f"Don't know how to subtract {self.typ.__name__}")
 
     def __neg__(self):
+        # Like __add__, work with what is already known about the value, so that
+        # e.g. a settled link base cancels against addresses derived from it
+        estimate = self.get_current_best_estimate()
+        if estimate is not self:
+            return -estimate
         return LinearPolynomial[self.typ]({self: -1})
 
     def __pos__(self):
@@ -147,6 +152,9 @@ class BaseDeferred(metaclass=BaseDeferredMetaclass):
 
     def __rmul__(self, lhs):
         if self.typ is int:
+            estimate = self.get_current_best_estimate()
+            if estimate is not self:
+                return lhs * estimate
             return LinearPolynomial[self.typ]({self: lhs})
         else:
             raise TypeError(f"Don't know how to multiply {self.typ.__name__}")
